@@ -18,3 +18,42 @@ def cancel_safety(fx, rep, rule_id, why):
     if not n:
         rep.bad(rule_id, 'anchor', '-', 'cancel-safety instances not found')
     return n
+
+
+_SUB_CACHE = {}
+_IN_PROGRESS = set()
+
+
+def rules_of(fx, rep, pid, rules, rule_id, why, tier='quick'):
+    """rules `rules` of property `pid` as rule `rule_id` of the importing property (instances re-keyed; known findings of the exporting
+    property stay its own and are not repeated here)"""
+    import importlib
+    mod = importlib.import_module(pid.lower())
+    ck = (id(fx), pid)
+    if ck in _IN_PROGRESS:
+        return 0        # mutual import: the outer evaluation of `pid` is the one that counts
+    if ck not in _SUB_CACHE:
+        sub = engine.Report(pid, tier)
+        _IN_PROGRESS.add(ck)
+        try:
+            mod.check(fx, sub, tier)
+        finally:
+            _IN_PROGRESS.discard(ck)
+        _SUB_CACHE[ck] = sub
+    sub = _SUB_CACHE[ck]
+    kf = engine.load_known()
+    known = {e['key'] for e in kf.get('findings', []) if e['property'] == pid}
+    n = 0
+    for i in sub.insts:
+        if i.rule in rules:
+            n += 1
+            if not i.ok and i.full_key() in known:
+                rep.ok(rule_id, i.rule + '|' + i.key, i.where, 'known finding of %s (reported there): %s' % (pid, i.msg[:120]), nontrivial=False)
+            else:
+                (rep.ok if i.ok else rep.bad)(rule_id, i.rule + '|' + i.key, i.where, i.msg if i.ok else i.msg + ' - ' + why, i.detail)
+    for rule, (fl, what) in sub.floors.items():
+        if rule in rules and sub.count(rule) < fl:
+            rep.bad(rule_id, 'floor|' + rule, '-', 'anchor lost in the imported rule %s of %s: expected %d %s' % (rule, pid, fl, what))
+    if not n:
+        rep.bad(rule_id, 'anchor', '-', 'no instance of the imported rules %s of %s' % (sorted(rules), pid))
+    return n
